@@ -441,13 +441,15 @@ func expectedAdmission(def definition.PipelineDef, running, waiting int) admissi
 
 func (m *Machine) definedPipelines() []string { return sortedKeys(m.w.Defs.Pipelines) }
 
-func (m *Machine) ActSchedule(t *rapid.T) { m.actSchedule(t, "") }
+func (m *Machine) ActSchedule(t *rapid.T) { m.actSchedule(t, "", false) }
+
+// ActScheduleOn schedules a job for the given pipeline (judged like any other request).
+func (m *Machine) ActScheduleOn(t *rapid.T, p string) { m.actSchedule(t, p, false) }
 
 // actSchedule: with onlyPipeline != "" the request goes to that pipeline while one of its jobs is completing
 // (m.window): the state in which the runner decides is then not determined, so the decision table is not
 // consulted; the monitors over the event log (C01, C06) and the queue invariants judge the outcome.
-func (m *Machine) actSchedule(t *rapid.T, onlyPipeline string) {
-	inWindow := onlyPipeline != ""
+func (m *Machine) actSchedule(t *rapid.T, onlyPipeline string, inWindow bool) {
 	names := m.definedPipelines()
 	undefined := pct(t, 3, "undefinedPipeline")
 	var p string
@@ -457,7 +459,7 @@ func (m *Machine) actSchedule(t *rapid.T, onlyPipeline string) {
 	} else {
 		p = rapid.SampledFrom(names).Draw(t, "pipeline")
 	}
-	if inWindow {
+	if onlyPipeline != "" {
 		p, undefined = onlyPipeline, false
 	}
 	victim := uuid.Nil.String()
@@ -547,6 +549,12 @@ func (m *Machine) actSchedule(t *rapid.T, onlyPipeline string) {
 	}
 	if inWindow {
 		exp = "undetermined"
+		// whatever the runner decided: a job that waited before and is reported canceled now was replaced
+		for _, o := range waiting {
+			if os := s1.Jobs[o.ID]; os != nil && os.Canceled && os.Start == nil && !o.CancelAcked {
+				o.Replaced, o.ReplacedSeq = true, seq
+			}
+		}
 	}
 	switch exp {
 	case admReject:
